@@ -23,7 +23,7 @@ public:
     }
 
     void ActivateChannel(u16 value) {
-        active_channel = value;
+        active_channel = value & 7; // 3-bit CHANNEL field
     }
     u16 GetActiveChannel() const {
         return active_channel;
